@@ -253,6 +253,9 @@ class ExecBase:
                 items = list(v.items)
             elif isinstance(v, VRef) and isinstance(st.deref(v), HList) and st.deref(v).items is not None:
                 items = list(st.deref(v).items)
+            elif isinstance(v, VRef) and isinstance(st.deref(v), HObj) and self._namedtuple_fields(st.deref(v)) is not None and all(n in st.deref(v).fields for n in self._namedtuple_fields(st.deref(v))):
+                # a NamedTuple instance of the repo (Token) unpacks into its fields, in declaration order
+                items = [st.deref(v).fields[n] for n in self._namedtuple_fields(st.deref(v))]
             else:
                 raise Unsupported(f"unpacking of {type(v).__name__} at line {tgt.lineno}")
             if len(items) != len(tgt.elts):
@@ -284,6 +287,14 @@ class ExecBase:
                     out.extend(self.set_item(s, vals[0], vals[1], v))
             return out
         raise Unsupported(f"assignment target {type(tgt).__name__}")
+
+    def _namedtuple_fields(self, h):
+        if not h.cls[0].startswith("liquid"):
+            return None
+        cnode = load.get_module(h.cls[0]).classes.get(h.cls[1])
+        if cnode is None or not any(ast.unparse(b) in ("NamedTuple", "typing.NamedTuple") for b in cnode.bases):
+            return None
+        return [st_.target.id for st_ in cnode.body if isinstance(st_, ast.AnnAssign) and isinstance(st_.target, ast.Name)]
 
     def s_Delete(self, node, st):
         results = [(st, None)]
